@@ -8,6 +8,9 @@ CONSTANTS
   FixZeroHashState = FALSE
   FixLegacyZeroWriteLog = FALSE
   LubZeroShortcut = FALSE
+  NVar = 2
+  Scenarios = {"base"}
+  Leave = {}
   WithPreConfirmed = FALSE
 INIT Init
 NEXT Next
